@@ -287,14 +287,17 @@ def ordered_subsets(items):
     return out
 
 
-def ws_subprotocols(col, stride, offset):
+def ws_subprotocols(col, stride, offset, only=None):
     from harness import drv, wsutil
     _, ws = _mods()
     subsets = ordered_subsets(SERS)
     pairs = [(c, s) for c in subsets for s in subsets if c and s]
     d = drv.get_driver()
     for idx, (cl, sl) in enumerate(pairs):
-        if idx % stride != offset:
+        if only is not None:
+            if (list(cl), list(sl)) != (list(only[0]), list(only[1])):
+                continue
+        elif idx % stride != offset:
             continue
         clog, slog = [], []
         kw = {"reactor": d.clock} if d.fw == "twisted" else {"loop": d.loop}
@@ -682,6 +685,7 @@ def replay(col, case):
         d.close()
         return
     if kind == "ws-sub":
+        ws_subprotocols(col, 1, 0, only=(c["client"], c["server"]))
         return
     if kind == "coalesced":
         replay_coalesced(c)
